@@ -1,0 +1,36 @@
+//go:build verif
+// +build verif
+
+package main
+
+import (
+	"net/http"
+	neturl "net/url"
+	"os"
+)
+
+// verifRedirect sends every request of the tool to the server named by
+// BIP39_VERIF_WORDLIST_BASE, keeping the request path. It exists only in
+// builds with the "verif" tag.
+type verifRedirect struct {
+	base *neturl.URL
+	next http.RoundTripper
+}
+
+func (v verifRedirect) RoundTrip(req *http.Request) (*http.Response, error) {
+	r2 := req.Clone(req.Context())
+	r2.URL.Scheme = v.base.Scheme
+	r2.URL.Host = v.base.Host
+	r2.Host = v.base.Host
+	return v.next.RoundTrip(r2)
+}
+
+func init() {
+	if b := os.Getenv("BIP39_VERIF_WORDLIST_BASE"); b != "" {
+		u, err := neturl.Parse(b)
+		if err != nil {
+			panic(err)
+		}
+		http.DefaultTransport = verifRedirect{base: u, next: http.DefaultTransport}
+	}
+}
